@@ -1,6 +1,6 @@
 # C12: concurrent lite-client requests each receive their own answer; timeouts; reconnect; no race / deadlock /
 # goroutine growth (spec/LiteClient.tla).
-import json, os, copy, re, subprocess, time
+import json, os, copy, re, shutil, subprocess, time
 import vlib
 from vlib import Infra, log
 
@@ -38,20 +38,26 @@ ALL_INV = "TypeOK OwnAnswer ChanOwn ReaderNeverBlocks RegisteredWhileWaiting NoL
 # --------------------------------------------------------------------------------------------- build
 def build_race(ck):
     """the harness built with the race detector (needs cgo); falls back to a plain build with a note"""
-    import shutil
     shutil.copy(os.path.join(vlib.REPO, "go.sum"), os.path.join(vlib.HARNESS, "go.sum"))
     out = os.path.join(ck.work, "vh_race")
     env = dict(vlib.GOENV, CGO_ENABLED="1")
+    modargs = []
+    if os.path.realpath(vlib.REPO) != "/repo":
+        # runs against another checkout (seeded defects): same mechanism as vlib.build_vh
+        alt = os.path.join(ck.work, "go.alt.mod")
+        open(alt, "w").write(open(os.path.join(vlib.HARNESS, "go.mod")).read().replace("=> /repo", "=> " + os.path.realpath(vlib.REPO)))
+        shutil.copy(os.path.join(vlib.REPO, "go.sum"), os.path.join(ck.work, "go.alt.sum"))
+        modargs = ["-modfile", alt]
     for attempt in range(3):
-        p = vlib.sh(["go", "build", "-race", "-tags", "verif", "-o", out, "./cmd/vh"], cwd=vlib.HARNESS, env=env, check=False, timeout=1500)
+        p = vlib.sh(["go", "build"] + modargs + ["-race", "-tags", "verif", "-o", out, "./cmd/vh"], cwd=vlib.HARNESS, env=env, check=False, timeout=1500)
         if p.returncode == 0:
             return out, True
-        if "internal/c12/" in p.stdout or "/repo/" in p.stdout or os.environ.get("VERIF_NO_RETRY"):
+        if "internal/c12/" in p.stdout or "/repo/" in p.stdout or os.path.realpath(vlib.REPO) in p.stdout or os.environ.get("VERIF_NO_RETRY"):
             break
         if "cgo" in p.stdout.lower() or "gcc" in p.stdout.lower() or "-race" in p.stdout:
             break
         time.sleep(20)
-    if "internal/c12/" in p.stdout or "/repo/" in p.stdout:
+    if "internal/c12/" in p.stdout or "/repo/" in p.stdout or os.path.realpath(vlib.REPO) in p.stdout:
         raise Infra("harness does not build against /repo:\n" + p.stdout[-4000:])
     ck.notes.append("race detector unavailable (go build -race failed: %s); executions ran without it" % p.stdout.strip()[-300:])
     return ck.build_vh(), False
@@ -214,27 +220,51 @@ def execute(ck, binary, script, tag, timeout=120):
     return Exec(script, res, err, rc, tp if os.path.exists(tp) else None, time.time() - t)
 
 
+def has_outage(script):
+    return any(st["a"] == "outage" for st in script["steps"])
+
+
+def race_key(stderr):
+    """stable name of a race report: the first function of the client that appears in the first report"""
+    blk = stderr[stderr.index("WARNING: DATA RACE"):]
+    blk = blk[:blk.index("==================", 10)] if "==================" in blk[10:] else blk[:6000]
+    m = re.search(r"tongo/(liteclient\.[^\s(]*(?:\([^)]*\))?[^\s(]*)\(", blk)
+    if m:
+        return "C12:data-race:" + m.group(1)
+    m = re.search(r"\n\s+(\S+)\(\)", blk)
+    return "C12:data-race:" + ((m.group(1) if m else "?").split("/")[-1])
+
+
 def harness_findings(x):
     """violation candidates from the harness's own assertions: list of (key, what)"""
     out = []
     if "WARNING: DATA RACE" in x.stderr:
-        m = re.search(r"WARNING: DATA RACE\n(?:.*\n){1,3}?\s+(\S+)\(\)", x.stderr)
-        fn = (m.group(1) if m else "?").split("/")[-1]
-        out.append(("C12:data-race:" + fn, "the race detector reports a data race: " + x.stderr[x.stderr.index("WARNING: DATA RACE"):][:1500]))
+        out.append((race_key(x.stderr), "the race detector reports a data race: " + x.stderr[x.stderr.index("WARNING: DATA RACE"):][:1800]))
     if x.rc not in (0, 66) and re.search(r"^(panic:|fatal error:)", x.stderr, re.M):
-        out.append(("C12:crash", "the client crashes the process: " + x.stderr[-1500:]))
+        m = re.search(r"^(panic:|fatal error:).*$", x.stderr, re.M)
+        out.append(("C12:crash", "the client crashes the process: " + x.stderr[m.start():][:1500]))
     r = x.res
     if r is None:
         return out
+    if r.get("stream_corrupt"):
+        out.append(("C12:client-stream-corrupt", "the server could not decrypt / verify %d frame(s) of the client's byte stream (not a sequence of valid frames)" % r["stream_corrupt"]))
     if r.get("hang"):
-        out.append(("C12:hang", "a caller was still inside Request long after its deadline: " + r.get("hang_stacks", "")[:1500]))
+        # everything after this point of the execution was skipped
+        out.append(("C12:call-outlives-deadline", "calls %s were still inside Request more than %d ms + 1 s after their %d ms deadline: %s" % (
+            r.get("hung_calls", [])[:8], SLACK_MS, r["timeout_ms"], r.get("hang_stacks", "")[:1200])))
+        return out
     if r["payload_mismatch"]:
         out.append(("C12:payload-mismatch", "calls %s returned bytes that are not the server's answer for their query id" % r["payload_mismatch"][:8]))
     if r["late"]:
         out.append(("C12:return-after-deadline", "calls %s returned more than %d ms after their %d ms deadline" % (r["late"][:8], SLACK_MS, r["timeout_ms"])))
     if not r["recovered"]:
-        out.append(("C12:no-reconnect-within-bound", "after %d close(s) by the server the client was not back on %d open connections within the bound "
-                    "(2 ping periods + 1 s per failed dial + slack)" % (r["drops"], r["nconns"])))
+        if has_outage(x.script):
+            out.append(("C12:no-reconnect-after-long-outage", "the server refused every connection attempt for %d ms and then accepted again on the same address and key; "
+                        "the client was not back on %d open connections within 1 s retry + 2 s + slack after that" % (
+                            max(st.get("ms", 0) for st in x.script["steps"]), r["nconns"])))
+        else:
+            out.append(("C12:no-reconnect-within-bound", "after %d close(s) by the server the client was not back on %d open connections within the bound "
+                        "(2 ping periods + 1 s per failed dial + slack)" % (r["drops"], r["nconns"])))
     elif r["followup_failed"]:
         out.append(("C12:later-call-fails-after-recovery", "calls %s issued after every connection had recovered did not succeed" % r["followup_failed"][:8]))
     if r["recovered"] and not r["census_ok"]:
@@ -246,16 +276,26 @@ def harness_findings(x):
     return out
 
 
-def trace_key(rj, res):
+def trace_key(rj, res, script=None):
     e = rj["event"]
     k = e.get("k", "?")
+    if k == "Hang":
+        return "C12:call-outlives-deadline"
+    if k == "srv.corrupt":
+        return "C12:client-stream-corrupt"
+    if k == "send.try":
+        return "C12:send-not-exclusive"          # a second sender entered Send's critical section of Connection.mu
+    if k == "rc.dialfail":
+        return "C12:no-reconnect-after-long-outage" if script and has_outage(script) else "C12:dial-fails-without-server-refusal"
     if k == "ret.timeout":
         return "C12:timeout-although-answer-was-available"
     if k in ("return", "ret.answer") and e.get("res", "answer") == "answer":
         return "C12:trace:%s" % k
     if k == "Quiesce":
+        if res and res.get("hang"):
+            return "C12:call-outlives-deadline"
         if res and not res["recovered"]:
-            return "C12:no-reconnect-within-bound"
+            return "C12:no-reconnect-after-long-outage" if script and has_outage(script) else "C12:no-reconnect-within-bound"
         return "C12:not-quiescent"
     if k == "dlv.pre":
         return "C12:reader-blocks-or-wrong-delivery"
@@ -377,6 +417,15 @@ def run(ck):
     soak = {"id": 200000, "plan": "soak", "ncalls": 0, "nconns": 3, "timeout_ms": 2000, "steps": [], "bg_callers": 16,
             "bg_calls": 640 if ck.thorough else 130, "followup": 1, "mode": "bare", "jitter": False, "cls": "soak"}
     bare.append(soak)
+    # many callers on ONE connection with large query bodies: the writes of concurrent senders overlap unless Send serialises them
+    nb = 12 if not ck.thorough else 40
+    for j, mode in enumerate(["traced", "bare"] + (["traced", "bare"] if ck.thorough else [])):
+        bare.append({"id": 210000 + j, "plan": "burst", "ncalls": 0, "nconns": 1, "timeout_ms": 2 * SLACK_MS + 300, "steps": [], "bg_callers": 16,
+                     "bg_calls": nb, "followup": 1, "mode": mode, "jitter": mode == "traced" and j >= 2, "cls": "burst", "q_bytes": 48 << 10})
+    # long outage: the server closes the link and refuses every attempt for > 10 s (counted from the client's first attempt), then is back
+    for j in range(1 if not ck.thorough else 2):
+        bare.append({"id": 220000 + j, "plan": "outage", "ncalls": 0, "nconns": 1 + j, "timeout_ms": 300, "steps": [{"a": "outage", "i": 0, "k": 1, "of": 0, "ms": 12500 + 1500 * j}],
+                     "bg_callers": 1, "bg_calls": 4, "followup": 2, "mode": "traced", "jitter": False, "cls": "outage"})
     silence = []
     if ck.thorough:
         for j in range(2):
@@ -385,7 +434,7 @@ def run(ck):
 
     # ---- S->C: execute
     par = 12 if not ck.thorough else 16
-    todo = scripts + bare + silence
+    todo = sorted(scripts + bare + silence, key=lambda sc: 0 if sc["plan"] in ("outage", "silence") else 1 if sc["plan"] in ("burst", "soak") else 2)
     t_ex = time.time()
     execs = vlib.parallel(lambda s: execute(ck, binary, s, "x"), todo, n=par)
     ck.extra["exec_wall_s"] = round(time.time() - t_ex, 1)
@@ -408,7 +457,7 @@ def run(ck):
         if x.script["mode"] == "traced" and x.trace and x.res is not None:
             rj = validate(ck, [x], "%s_%d" % (tag, x.script["id"]))[x.script["id"]]
             if rj:
-                fs.append((trace_key(rj, x.res), "not a behaviour of LiteClient: accepted %d of %d events; rejected event %s" % (
+                fs.append((trace_key(rj, x.res, x.script), "not a behaviour of LiteClient: accepted %d of %d events; rejected event %s" % (
                     rj["accepted"], rj["length"], json.dumps(short(rj["event"])))))
         return fs, rj
     suspects = []
@@ -416,16 +465,22 @@ def run(ck):
         fs = harness_findings(x)
         rj = verdicts.get(x.script["id"])
         if rj:
-            fs.append((trace_key(rj, x.res), "not a behaviour of LiteClient: accepted %d of %d events; rejected event %s" % (
+            fs.append((trace_key(rj, x.res, x.script), "not a behaviour of LiteClient: accepted %d of %d events; rejected event %s" % (
                 rj["accepted"], rj["length"], json.dumps(short(rj["event"])))))
         if fs:
             suspects.append((x, fs, rj))
     naccepted = sum(1 for x in traced if not verdicts.get(x.script["id"]))
     nbare_ok = sum(1 for x in execs if x.script["mode"] == "bare" and x.res is not None and not harness_findings(x))
     unreproduced = []
-    for x, fs, rj in suspects[:12]:
-        keys = {k for k, _ in fs}
-        again = [execute(ck, binary, x.script, "again%d" % n) for n in (1, 2)]
+    # one suspect per distinct key first (the cheapest execution that shows it), at most 8 in all; re-executed twice each, in parallel
+    chosen, seen_keys = [], set()
+    for x, fs, rj in sorted(suspects, key=lambda t: t[0].wall):
+        ks = {k for k, _ in fs}
+        if ks - seen_keys and len(chosen) < 8:
+            chosen.append((x, fs, rj)); seen_keys |= ks
+    reruns = vlib.parallel(lambda a: execute(ck, binary, a[0].script, "again%d" % a[1]), [(c[0], n) for c in chosen for n in (1, 2)], n=par)
+    for ci, (x, fs, rj) in enumerate(chosen):
+        again = reruns[2 * ci:2 * ci + 2]
         hits = {}
         for n, y in enumerate(again):
             fs2, rj2 = judge(y, "again%d" % n)
@@ -441,8 +496,10 @@ def run(ck):
                      "result": y.res, "stderr": y.stderr[-3000:]})
             else:
                 unreproduced.append((x.script["id"], k, w))
-    if len(suspects) > 12:
-        ck.notes.append("%d further suspect executions were not re-executed" % (len(suspects) - 12))
+    # a key that did not reproduce on its own execution but is an established violation of this run is not an open question
+    unreproduced = [u for u in unreproduced if u[1] not in {v["key"] for v in ck.violations} and u[1] not in {k["key"] for k in ck.known_hit}]
+    if len(suspects) > len(chosen):
+        ck.notes.append("%d suspect executions in all, %d re-executed (one per distinct key first)" % (len(suspects), len(chosen)))
     ck.extra["executions"] = len(execs)
     ck.extra["traces_accepted"] = naccepted
     ck.extra["bare_ok"] = nbare_ok
@@ -533,7 +590,7 @@ def replay(ck, path):
             if x.script["mode"] == "traced" and x.trace and x.res is not None:
                 rj = validate(ck, [x], "replay%d" % n)[x.script["id"]]
                 if rj:
-                    fs.append((trace_key(rj, x.res), "accepted %d of %d events; rejected event %s" % (rj["accepted"], rj["length"], json.dumps(short(rj["event"])))))
+                    fs.append((trace_key(rj, x.res, x.script), "accepted %d of %d events; rejected event %s" % (rj["accepted"], rj["length"], json.dumps(short(rj["event"])))))
             print("re-execution %d: %s" % (n + 1, json.dumps({k: v for k, v in (x.res or {}).items() if k not in ("notes",)})))
             for k, w in fs:
                 print("  %s: %s" % (k, w[:600]))
